@@ -398,6 +398,8 @@ def run(ctx) -> None:
     ctx.step(_rust_round_last, ctx)
     ctx.step(_rust_order_guards, ctx)
     ctx.step(_interval_assembly, ctx)
+    from . import C09
+    ctx.step(C09._duration_new, ctx)        # 'a remaining length equal to the exact value rounded to the microsecond': every parsed duration is built through Duration.__new__
     ctx.expect_min("FRACTION-SCALE", 6)
     ctx.expect_min("INTERVAL.assembly", 5)
     ctx.expect_min("RUST-ARITH", 4)
